@@ -11,7 +11,6 @@ COMMON_ASSUME = [
 
 PROPS = {
     "C17": dict(
-        disabled=True,
         level="proof",
         shrinkable=3,
         trusted_base=[KERNEL, CORR,
